@@ -807,6 +807,31 @@ fn process_preprocessed_file(
     Ok(true)
 }
 
+// Verification hook H2 (guard: --cfg sccache_verif): exposes the private include recorder with the real
+// file system, returning its verdict and the recorded include files (sorted). No behaviour.
+#[cfg(sccache_verif)]
+pub fn verif_process_preprocessed_file(
+    input_file: &Path,
+    cwd: &Path,
+    bytes: &mut [u8],
+    config: PreprocessorCacheModeConfig,
+    time_of_compilation: std::time::SystemTime,
+) -> Result<(bool, Vec<(PathBuf, String)>)> {
+    let mut included_files = HashMap::new();
+    let keep = process_preprocessed_file(
+        input_file,
+        cwd,
+        bytes,
+        &mut included_files,
+        config,
+        time_of_compilation,
+        StandardFsAbstraction,
+    )?;
+    let mut v: Vec<(PathBuf, String)> = included_files.into_iter().collect();
+    v.sort();
+    Ok((keep, v))
+}
+
 /// What to do after handling a preprocessor number line.
 /// The `Break` variant is `(start, hash_start, continue_preprocessor_cache_mode)`.
 /// The `Continue` variant is `(start, hash_start)`.
